@@ -417,7 +417,13 @@ class Exec(object):
             h = getattr(self, "do_" + op["op"], None)
             if h is not None:
                 self.order.append(op.get("c", 9))
-                h(op)
+                try:
+                    h(op)
+                except kernel.SimBudgetExceeded as e:
+                    if not kernel.wall_stall(e):
+                        raise
+                    self.fail("C15.stall", "step %s did not return (wall-clock backstop)" % op["op"], op=op["op"], wall=True)
+                    break
         return self.result()
 
     # -- queries ---------------------------------------------------------------
@@ -806,7 +812,7 @@ def describe(prop):
         "state_measure": "distinct pairs (catalog entry, set of function names called before it in the process + set of function names whose results/arguments were mutated before it)",
         "fault_kinds": ["scribble", "reuse_arg", "instance_op"],
         "probes": ["method_asked_again_on_held_object", "mismatch_after_scribble", "query_after_scribble_on_same_function", "function_name_api_after_numeral_scribble", "substitution_depth_ge_1", "suite_created_after_sibling_added", "lookup_same_slot", "lookup_next_slot", "lookup_restart"],
-        "clauses": ["C15.same_value", "C15.result_private", "C15.args_untouched", "C15.siblings", "C15.copy_independent", "C15.lookup"],
+        "clauses": ["C15.same_value", "C15.result_private", "C15.args_untouched", "C15.siblings", "C15.copy_independent", "C15.lookup", "C15.stall"],
         "components_real": ["mingus.core.{notes,intervals,keys,scales,chords,progressions,value,meter} public functions: " + ", ".join(fns), "mingus.containers classes", "mingus.midi.midi_file_out.MidiFile, midi_file_in.MidiFile, midi_track.MidiTrack, sequencer.Sequencer", "mingus.extra.fft._find_log_index"],
         "components_stub": ["none inside the library; clients and their schedule are simulated; the oracle is a cold interpreter process per catalog entry"],
         "assumptions": [
